@@ -222,7 +222,10 @@ def o193(ctx):
     b = block_of(m, ca)
     after = b[b.index(ca) + 1:]
     inc = [s for s in after if isinstance(s, ast.AugAssign) and isinstance(s.target, ast.Name) and s.target.id == counter and isinstance(s.op, ast.Add)
-           and isinstance(s.value, ast.Constant) and s.value.value == 1]
+           and isinstance(s.value, ast.Constant) and s.value.value == 1] + \
+          [s for s in after if isinstance(s, ast.Assign) and len(s.targets) == 1 and isinstance(s.targets[0], ast.Name) and s.targets[0].id == counter
+           and isinstance(s.value, ast.BinOp) and isinstance(s.value.op, ast.Add)
+           and {src(s.value.left), src(s.value.right)} == {counter, "1"}]
     ctx.count(1, {"counter": counter, "unconditional increment in the same block": bool(inc)})
     if not inc:
         ctx.finding(q, ca, f"every finished chain must consume a fresh object number: {counter} must be incremented unconditionally in the block "
